@@ -11,17 +11,22 @@ never touched), log (unchanged) and remaining fuel.
 leaves one new stack entry that denotes `v` (an identifier entry is resolved when it is popped, so the
 entry `w` satisfies `resolve env w = v`).
 
-The environment has no stored programs (`NoProgs`): popping an identifier never starts a nested run, so
-`rec`/`top` are arbitrary and the log never changes.
+The environment has no stored programs and is not the interpreter whose unresolved-name flag is read
+(`NoProgs`): popping an identifier never starts a nested run and leaves no marker, so `rec`/`top` are
+arbitrary and the log never changes.  (The compile-time run of `check_for_const`, which does record the
+flag, is related to such an environment by `Lemmas/Unres.lean`.)
 -/
 namespace Rscel
 namespace Seq
 
-/-- No name resolves to a stored program. -/
-def NoProgs (env : Env) : Prop := ∀ n, env.getProg n = none
+/-- No name resolves to a stored program, and the environment is not the one interpreter whose
+    unresolved-name flag is recorded (`check_for_const`'s): every run-time environment. -/
+structure NoProgs (env : Env) : Prop where
+  prog : ∀ n, env.getProg n = none
+  untracked : env.trackUnres = false
 
-theorem noProgs_of_nil {env : Env} (h : env.progs = []) : NoProgs env := by
-  intro n; simp [Env.getProg, h, lookup]
+theorem noProgs_of_nil {env : Env} (h : env.progs = []) (ht : env.trackUnres = false := by rfl) : NoProgs env :=
+  ⟨fun n => by simp [Env.getProg, h, lookup], ht⟩
 
 /-- The value `pop` returns for the stack entry `.val w`. -/
 def resolve (env : Env) : Val → Val
@@ -67,7 +72,7 @@ theorem popV_resolve (h : NoProgs env) (w : Val) (st : List SVal) (log : Log) :
     popV rec env { stack := .val w :: st, log := log } = .ok (resolve env w) { stack := st, log := log } := by
   cases w
   case ident n =>
-    simp only [popV, popS, resolve, resolveIdent, h n]
+    simp only [popV, popS, resolve, resolveIdent, h.prog n, markUnres_untracked h.untracked]
     cases env.getType n <;> simp
     cases env.getParam n <;> simp
   all_goals simp [popV, popS, resolve]
@@ -532,7 +537,7 @@ theorem finish_resolve (hnp : NoProgs env) (w : Val) (log : Log) :
   have hp : popS rec env { stack := [.val w], log := log } = .ok (.val (resolve env w)) { stack := [], log := log } := by
     cases w
     case ident n =>
-      simp only [popS, resolve, resolveIdent, hnp n]
+      simp only [popS, resolve, resolveIdent, hnp.prog n, markUnres_untracked hnp.untracked]
       cases env.getType n <;> simp
       cases env.getParam n <;> simp
     all_goals simp [popS, resolve]
